@@ -45,6 +45,18 @@ CLAIMED = {
              "inserted/removed again. The pinned snapshot's model (fresh close flag, F3) is refuted by a kernel-checked witness.",
         ref="4/C11", tech="Coq proof (invariant + frame lemma) + extracted-model correspondence",
         note="as C06; the residual window inside one poll on a multi-threaded runtime is unmodelled."),
+    "C07": dict(
+        text="Theorems (any block/index size, any sequence of batches of admissible entry lengths): the splitter's "
+             "'handle loop never needs more than three rounds, the split context invariant carries across batches, "
+             "every placed entry is page aligned, behind its blob's index page, inside its block and back to back with "
+             "its neighbours; parts of one block come out in increasing, non-overlapping order and the context's cursor "
+             "never moves backwards within a block. Correspondence: real Splitter::split vs the extracted model on "
+             "batch sequences built to fill index and block exactly, continue blobs across batches and span blocks; "
+             "an independent scanner (Python) re-reads the implementation's layout and must recover exactly the "
+             "entries written. PARTIAL: scan exactness and loadability are checked by that oracle, not proved in Coq; "
+             "device-level comparison after reclaim/reuse belongs to the storage stream.",
+        ref="4/C07", tech="Coq proof (splitter invariant) + extracted-model correspondence + independent scanner oracle",
+        note="drives Splitter::split directly (hook H1); placement formula of flusher.rs is part of the model."),
     "C08": dict(
         text="Theorems: decode(encode x) = x for every numeric width, bool, Vec<u8>, String (under from_utf8 validity), "
              "the entry header, and whole entries (value then key, recorded lengths = bytes written, checksum over exactly "
